@@ -52,9 +52,13 @@ pub fn run_case(case: &Sx) -> Sx {
         {
             let bits: Vec<char> = m.chars().collect();
             let mut ex = vec![sym("expl")];
-            let mut budget = 40;
-            for i in 0..n { for j in 0..n {
-                if i == j || bits[i * n + j] != '1' || h.handle_term[i] == h.handle_term[j] || budget == 0 { continue; }
+            // one explanation per handle: against the first handle of its equality class (a spanning set;
+            // equality of the other pairs follows by symmetry and transitivity)
+            let mut budget = 60;
+            for j in 0..n {
+                let rep = (0..n).find(|i| bits[*i * n + j] == '1').unwrap_or(j);
+                let i = rep;
+                if i == j || h.handle_term[i] == h.handle_term[j] || budget == 0 { continue; }
                 budget -= 1;
                 let (ti, tj) = (h.terms[h.handle_term[i]].clone(), h.terms[h.handle_term[j]].clone());
                 let r = std::panic::catch_unwind(std::panic::AssertUnwindSafe(|| { let p = h.eg.explain_equivalence(ti, tj); export_proof(&h.eg, &p) }));
@@ -62,7 +66,7 @@ pub fn run_case(case: &Sx) -> Sx {
                     Ok(p) => lst(vec![num(i as u64), num(j as u64), p]),
                     Err(_) => { let (loc, msg) = take_panic().unwrap_or_default(); lst(vec![num(i as u64), num(j as u64), lst(vec![sym("err"), sym(panic_kind(&msg)), sym(&loc.replace(' ', "_").replace("/repo/", ""))])]) }
                 });
-            } }
+            }
             v.push(lst(ex));
         }
         lst(v)
